@@ -661,10 +661,13 @@ class OdeSystem(object):
         """Sets the constants in the differential system
         """
         self.__consts = new_constants
+        # the end-of-step slope cached by the integrator was evaluated with the previous constants
+        if getattr(self, "integrator", None) is not None and getattr(self.integrator, "final_rhs", None) is not None:
+            self.integrator.final_rhs = None
 
     @constants.deleter
     def constants(self):
-        self.__consts = dict()
+        self.constants = dict()
 
     @property
     def rtol(self):
